@@ -6,6 +6,8 @@ import ColoVerif.Proofs.CheckedFlow
 import ColoVerif.Proofs.CheckedDetPlaceRun
 import ColoVerif.Proofs.Transp1dSorter
 import ColoVerif.Proofs.CheckedTranspTree
+import ColoVerif.Proofs.CheckedTranspCosts
+import ColoVerif.Proofs.CheckedTransp1dScale
 import ColoVerif.Model.LegacyChecked
 /-
 C07 — placement calls return or throw; never crash or invoke undefined behaviour.
@@ -412,7 +414,7 @@ terminate.  For every instance with as many supplies as sources, as many demands
 non-negative supplies and demands and total supply ≤ total demand — zero and unit supplies
 included — neither happens, and there is one sink per source.  (Proved for `C14`; restated here
 because out-of-bounds accesses and non-termination are C07 events.  Signed overflow of the
-`long long` position / slope arithmetic of this solver is NOT covered: sanitizer-monitored.) -/
+`long long` position / slope arithmetic is `transp1d_arith_no_fault` below.) -/
 theorem transp1d_no_fault (pb : Problem) (h1 : pb.s.length = pb.u.length) (h2 : pb.d.length = pb.v.length)
     (h3 : ∀ x ∈ pb.s, 0 ≤ x) (h4 : ∀ x ∈ pb.d, 0 ≤ x) (h5 : pb.s.sum ≤ pb.d.sum) :
     ∃ a, assign pb = .ok a ∧ a.length = pb.u.length := by
@@ -423,15 +425,63 @@ open ColoVerif.Transp1d in
 /-- non-vacuity: two unit cells, the second one flush against the end of a full line of two bins -/
 example : assign ⟨[0, 10], [0, 10], [1, 1], [1, 1]⟩ = .ok [0, 1] := by decide
 
+open ColoVerif.Transp1d in
+/-- **1-D transportation: no signed `long long` overflow.**  (src/place_global/transportation_1d.{hpp,cpp}:
+`Transportation1d pb(u, v, s, d); pb.balanceDemand(); pb.assign();`, the sequence of
+`DensityLegalizer::improveXTransport / improveYTransport`.)  The checked twin `balanceThenAssignC`
+(Model/Transp1dChecked.lean) types every `long long` operation of the sequence — `totalSupply` /
+`totalDemand` accumulations, `missing / nbSinks()`, `added * nbSinks()`, the prefix sums `D`, `S`,
+`cost = std::abs(u[i] - v[j])`, the four-term `delta`, `slope += events.top().second`,
+`getSlope() + cost(i, j)`, every `D[..] - S[..]`, `p[i] + S[i] + s[i] / 2`, `totalDemand() - S[p.size()]`.
+On the decidable domain `T1dDom` (one supply per source, one demand per sink, at least one sink, fewer than
+`2^31 − 1` of each, positions of magnitude at most `2^60 − 1`, non-negative supplies and demands with
+totals at most `2^61 − 1`) it never faults and returns what the unbounded model (C14) returns, which is
+an assignment with one sink per source.  The slope accumulations do not depend on the number of
+sources: `Σ |slope of the queued events|` is bounded by `6·max|position|` (sink events telescope over the
+sorted sinks, source events over the sorted sources; merging never increases the sum). -/
+theorem transp1d_arith_no_fault (pb : Problem) (h : T1dDom pb) :
+    balanceThenAssignC pb = .ok (balanceThenAssign pb) ∧
+      ∃ a, balanceThenAssign pb = .ok a ∧ a.length = pb.u.length := by
+  obtain ⟨a, _, e2, hl⟩ := assignC_total pb h
+  exact ⟨Transp1d.assignC_eq pb h, a, e2, hl⟩
+
+open ColoVerif.Transp1d in
+/-- non-vacuity: width-1 scale (positions ~2^55), unsorted sources, a zero supply, demand to balance -/
+example : T1dDom ⟨[36028797018963968, -36028797018963968, 7, 100], [0, 10, 20], [2, 1, 0, 3], [1, 1, 1]⟩ ∧
+    balanceThenAssignC ⟨[36028797018963968, -36028797018963968, 7, 100], [0, 10, 20], [2, 1, 0, 3], [1, 1, 1]⟩
+      = .ok (.ok [2, 0, 0, 1]) := by decide
+
+open ColoVerif.Transp1d in
+/-- **Witness beyond the domain**: with positions ±1.5·2^62 the first `+` of `delta`
+(transportation_1d.hpp:233) overflows; UBSan stops the real code at the same line. -/
+theorem transp1d_overflow_beyond_domain :
+    balanceThenAssignC ⟨[0, 1], [-6917529027641081856, 6917529027641081856], [2, 2], [1, 3]⟩
+      = .error (.intOverflow "delta: cost(i,j+1) + cost(i+1,j)") := by decide
+
+open ColoVerif.Transp1d in
+/-- **The instances `improveXTransport / improveYTransport` build are in the domain.**  With the scaling of
+density_legalizer.cpp modelled over exact rationals (`Model/Transp1dScale.lean`:
+`float factor = 1.0e8 / width`, `u = std::round(factor * target)`, `v = std::round(factor * binCentre)`),
+a placement area of width at least 1, `float` targets and bin centres of magnitude at most `2^29`
+(`GlobalPlacer::checkFinitePlacement` rejects `|x| > 2^28`, the targets are blends with weights in
+`[-0.1, 0.9]` of such a position and one inside the area), `int` cell demands and `long long` capacities
+that are non-negative with totals at most `2^61 − 1`: `|u|, |v| ≤ 2^56`, and the checked run never faults. -/
+theorem transp1d_scaled_no_fault (width : Int) (hw : 1 ≤ width) (targets centres : List Rat)
+    (demands caps : List Int)
+    (ht : ∀ x ∈ targets, -536870912 ≤ x ∧ x ≤ 536870912)
+    (hc : ∀ x ∈ centres, -536870912 ≤ x ∧ x ≤ 536870912)
+    (hl1 : demands.length = targets.length) (hl2 : caps.length = centres.length)
+    (hm : 0 < centres.length) (hn1 : targets.length < 2147483647) (hn2 : centres.length < 2147483647)
+    (hs : ∀ x ∈ demands, 0 ≤ x) (hd : ∀ x ∈ caps, 0 ≤ x)
+    (hss : demands.sum ≤ 2305843009213693951) (hds : caps.sum ≤ 2305843009213693951) :
+    balanceThenAssignC (scaledProblem width targets centres demands caps)
+      = .ok (balanceThenAssign (scaledProblem width targets centres demands caps)) :=
+  scaled_assignC_eq width hw targets centres demands caps ht hc hl1 hl2 hm hn1 hn2 hs hd hss hds
+
 /-! ### fixed-point costs of the general transportation solver -/
 
-/-- What `transp_costs_fit` should say in full: a checked twin `solveC` of the whole
-`TransportationSuccessiveShortestPath::run` (typed `int` cost arithmetic in `bestSink`, `updateTree`,
-`initQueues`, `updateDestQueues`; `long long` quantities) never faults and equals the unbounded
-`solve` for every problem that passes `check()`, has total demand ≤ total capacity and stored costs
-in `[0, INT_MAX / (4·nbSinks)]` (the range `costsFromIntegers` scales to).  `solveC` is not written;
-the statement is kept as the two facts it reduces to at every state of the run. -/
-def transp_costs_fit_full_statement : Prop :=
+/-- the label sums of `updateTree` / `bestSink` at a state characterised by C13's invariants -/
+def TreeSumsFit : Prop :=
   ∀ (p : Transp.Problem) (alloc : Transp.Mat) (qs : Transp.Queues) (rem : List Int) (d : Nat → Int) (C : Int),
     Transp.Mid p alloc qs rem → Transp.Pot p alloc rem d → (∀ i, i < p.nbSinks → d i ≤ Transp.intMax) →
     (∀ i j, i < p.nbSinks → j < p.nbSources → 0 ≤ p.cost i j ∧ p.cost i j ≤ C) → 0 ≤ C → 2 * C ≤ Transp.intMax →
@@ -441,20 +491,16 @@ def transp_costs_fit_full_statement : Prop :=
         Transp.bestSinkC p t.sendCost src = .ok (Transp.bestSink p t.sendCost src)))
 
 open ColoVerif.Transp in
-/-- **Transportation fixed-point costs: the path sums fit (partial).**
+/-- **Transportation fixed-point costs: the path sums fit at every state of the run.**
 (src/place_global/transportation.cpp; `CostType = int`.)  At every state at which the solver calls
-`updateTree` — characterised by the invariants `Mid` / `Pot` that the C13 termination proof
-establishes there (`Proofs/TranspSsp2Main.lean`, `update_total`) — with stored costs in `[0, C]` and
-`2·C ≤ INT_MAX` (`costsFromIntegers` scales to `C ≤ INT_MAX/(4·nbSinks)`, so `2·C ≤ INT_MAX/2`):
-every `movingCost(i, bestVisit) + sendingCost_[bestVisit]` of the label-correcting search is a
-representable `int` although the labels start at `INT_MAX` (the selected label is always within
-`[0, C]`: `pickVisit` takes a minimum and a sink with free capacity has label 0), the checked
-`updateTree` returns the unbounded model's tree, and — while some sink has capacity left, i.e.
-whenever `bestSink` is called — every `sendingCost_[i] + cost(i, src)` fits as well.
-*Partial*: the reduction "these are the states of the run" is C13's, not re-proved through a checked
-twin of the whole `run`; the float side of `costsFromIntegers` (`std::round(cost * factor)` to
-`int`) is sanitizer-monitored only; the model is tied to the C++ by C13's correspondence stream. -/
-theorem transp_costs_fit_partial : transp_costs_fit_full_statement := by
+`updateTree` — characterised by the invariants `Mid` / `Pot` of the C13 termination proof — with stored
+costs in `[0, C]` and `2·C ≤ INT_MAX`: every `movingCost(i, bestVisit) + sendingCost_[bestVisit]` of the
+label-correcting search is a representable `int` although the labels start at `INT_MAX` (the selected
+label is always within `[0, C]`: `pickVisit` takes a minimum and a sink with free capacity has label 0),
+the checked `updateTree` returns the unbounded model's tree, and — while some sink has capacity left —
+every `sendingCost_[i] + cost(i, src)` of `bestSink` fits as well.  (The lemma the whole-run theorem
+`transp_costs_fit` below uses at each augmentation.) -/
+theorem transp_tree_sums_fit : TreeSumsFit := by
   intro p alloc qs rem d C hm hp hdle hC hC0 h2C hcap
   obtain ⟨t, h1, h2, spec⟩ := updateTreeC_at_mid p alloc qs rem d hm hp hdle C hC h2C hC0 hcap
   refine ⟨t, h1, h2, ?_⟩
@@ -463,11 +509,102 @@ theorem transp_costs_fit_partial : transp_costs_fit_full_statement := by
     (by have im : intMax = 2147483647 := rfl; omega)
 
 open ColoVerif.Transp in
+/-- **The whole successive-shortest-path run: no fault, checked = unbounded.**
+(`solver.increaseCapacity(); solver.solve(); solver.toAssignment()` of `DensityLegalizer::reoptimize`;
+checked twin `assignC`, Model/TranspRunChecked.lean: `int` cost differences and label sums with the
+`INT_MAX` sentinel, `long long` demands / capacities / allocations, every partial sum of the
+`std::accumulate`s, `missing / nbSinks()`, the `assert`s.)  On the decidable domain `assignDomOk` —
+`check()` passes, there is a sink, no stored cost is negative, C13's `costBoundOk` (`3·cost < INT_MAX`),
+total demand and total capacity at most `2^61` — with assertions enabled or not, the checked sequence
+returns exactly the assignment of the unbounded model, and the problem handed to `solve()` satisfies
+the precondition `WellFormed` of C13's `ssp_terminates` / `ssp_optimal` (so the plan behind the
+assignment is feasible and of minimum cost). -/
+theorem transp_run_no_fault (asr : Bool) (p : Problem) (h : assignDomOk p = true) :
+    C13.WellFormed p.increaseCapacity ∧
+    ∃ a, Transp.assign p = .ok a ∧ Transp.assignC asr p = .ok a := by
+  have hd := assignDom_of_ok p h
+  exact ⟨wellFormed_increaseCapacity p hd, Transp.assignC_eq asr p hd⟩
+
+open ColoVerif.Transp in
+/-- non-vacuity of `transp_run_no_fault`: two bins, three cells, demand above capacity -/
+example : assignDomOk (Problem.make [2, 1] [2, 1, 2] [[0, 536870912, 7], [536870912, 0, 9]]) = true := by decide
+
+open ColoVerif.Transp in
+/-- **`transp_costs_fit` (full): the transportation that `DensityLegalizer::reoptimize` builds never faults.**
+For the `float` cost matrix `fc` of `reoptimize` (`reoptCostsC`: `distance(bx − cx, by − cy)` with any of the
+six cost models and a penalty factor `≥ 0`, every `float` operation rounded as IEEE-754 binary32 — finite on
+the C07 domain by `transp_float_costs_finite`), at least one and at most `2^31` bins, and `long long` capacities /
+`int` demands whose totals are at most `2^61`:
+
+* `costsFromIntegers` is defined: every `std::round(cost * conversionFactor_)` (binary64 arithmetic) is
+  an integer in `[0, 2^29]`, so its conversion to `int` is not undefined;
+* then either `check()` throws `std::runtime_error` (a cell without area) — an allowed outcome — or
+* the problem is in the domain of `transp_run_no_fault` (in particular C13's `costBoundOk` holds and
+  `solve()` runs on a `WellFormed` problem: the loop with `ssp_optimal` is closed), and the checked
+  `increaseCapacity(); solve(); toAssignment()` returns the unbounded model's assignment without a fault,
+  with assertions enabled or disabled. -/
+theorem transp_costs_fit (asr : Bool) (m : CostModel) (qf : Rat) (bins cells : List (Rat × Rat))
+    (caps dems : List Int) (fc : List (List Rat))
+    (hq : 0 ≤ qf) (hfc : reoptCostsC m qf bins cells = .ok fc)
+    (hb1 : 1 ≤ bins.length) (hb : bins.length ≤ 2147483648)
+    (hcapQ : caps.sum ≤ 2305843009213693952) (hdemQ : dems.sum ≤ 2305843009213693952) :
+    ∃ costs, costsFromIntegersC fc = .ok costs ∧
+      (((Problem.make caps dems costs).check = false ∧
+          reoptTransportC asr caps dems fc = .ok .throwRuntimeError) ∨
+       ((Problem.make caps dems costs).check = true ∧ assignDomOk (Problem.make caps dems costs) = true ∧
+         C13.WellFormed (Problem.make caps dems costs).increaseCapacity ∧
+         ∃ a, Transp.assign (Problem.make caps dems costs) = .ok a ∧
+           reoptTransportC asr caps dems fc = .ok (.assignment a))) := by
+  obtain ⟨hlen, hrange⟩ := reoptCostsC_range m qf bins cells fc hq hfc
+  obtain ⟨costs, h1, h2⟩ := reoptTransportC_no_fault asr caps dems fc (by omega) (by omega) hrange hcapQ hdemQ
+  refine ⟨costs, h1, ?_⟩
+  rcases h2 with h | ⟨hc, hd, a, ha, hr⟩
+  · exact Or.inl h
+  · exact Or.inr ⟨hc, assignDomOk_of _ hd, wellFormed_increaseCapacity _ hd, a, ha, hr⟩
+
+open ColoVerif.Transp in
+/-- non-vacuity of `transp_costs_fit`: L1 costs of two bins at (1/2, 1/2), (21/2, 1/2) and two cells are
+finite, and their fixed-point image is `[[26843546, 241591910], [268435456, 53687091]]` -/
+example : reoptCostsC .L1 0 [(1/2, 1/2), (21/2, 1/2)] [(1, 0), (9, 1)] = .ok [[1, 9], [10, 2]] ∧
+    costsFromIntegersC [[1, 9], [10, 2]] = .ok [[26843546, 241591910], [268435456, 53687091]] := by
+  decide +kernel
+
+open ColoVerif.Transp in
+/-- **No `float` of `reoptimize`'s cost evaluation overflows to infinity on the C07 domain** (all six cost
+models): bin centres and cell targets of magnitude at most `2^30` (the placement area lies within `2^22`;
+`GlobalPlacer::checkFinitePlacement` keeps the targets below `2^29`), penalty factor in `[0, 1]` for L1 / L2 /
+LInf and `0` for the squared models, as `GlobalPlacer::GlobalPlacer` sets it (`quadraticPenalty / (width +
+height)`, `quadraticPenalty ≤ 1`).  Hence the hypothesis `reoptCostsC … = .ok fc` of `transp_costs_fit` holds.
+(For L2 the bound uses `f32sqrt q ≤ 8·B` for `q ≤ B²`, proved for the rational `sqrtf` of `Model/F64.lean`;
+that this `sqrtf` is *correctly rounded* is validated by execution only — it does not matter for the bound.) -/
+theorem transp_float_costs_finite (m : CostModel) (qf : Rat)
+    (bins cells : List (Rat × Rat)) (hq0 : 0 ≤ qf) (hq1 : qf ≤ 1) (hq : m.linear = false → qf = 0)
+    (hb : ∀ b, b ∈ bins → rabs b.1 ≤ 1073741824 ∧ rabs b.2 ≤ 1073741824)
+    (hc : ∀ c, c ∈ cells → rabs c.1 ≤ 1073741824 ∧ rabs c.2 ≤ 1073741824) :
+    ∃ fc, reoptCostsC m qf bins cells = .ok fc :=
+  reoptCostsC_finite m qf bins cells hq0 hq1 hq hb hc
+
+open ColoVerif.Transp in
 /-- **Witness (why the labels matter).**  `sendingCost_` is initialised to `INT_MAX`: adding a cost
 to such a label — which `bestSink` would do for an unreached sink, e.g. if it were called with no
 capacity left anywhere — overflows. -/
 theorem transp_sentinel_overflow :
     bestSinkC ⟨[1], [1], [[1]], [[0]]⟩ [2147483647] 0 =
       .error (.intOverflow "bestSink: sendingCost_[i] + pb_.cost(i, src)") := by decide
+
+open ColoVerif.Transp in
+/-- **Witness (why the costs must be non-negative).**  C13's `costBoundOk` (`3·|cost| < INT_MAX`) admits
+signed costs; with them a label and an edge of `updateTree` can both reach `2·|cost|`, and
+`movingCost(i, bestVisit) + sendingCost_[bestVisit]` overflows `int` for `|cost| > INT_MAX/4` although the
+unbounded model (and C13's optimality theorem) is unaffected.  The state below — sink 1 full with label
+`1431655764`, the queue of sink 2 towards sink 1 topped by a cost of `1431655764` — is the one the
+`int`-cost constructor reaches on capacities `[1,1,1]`, demands `[1,1]`, costs `[[-c,-c],[-c,c],[c,c]]`,
+`c = 715827882` (stream H of the harness; UBSan stops the real code at transportation.cpp:502).
+`costsFromIntegers` never produces such costs (`transp_costs_fit`). -/
+theorem transp_signed_costs_overflow :
+    (match relaxC #[#[], #[], #[#[], #[⟨1431655764, 0⟩], #[]]] [1, 0, 0] 1 1 2
+        ⟨[0, 1431655764, 2147483647], [none, some 0, none], [false, true, false]⟩ with
+      | .error f => decide (f = .intOverflow "updateTree: movingCost(i, bestVisit) + sendingCost_[bestVisit]")
+      | .ok _ => false) = true := by decide
 
 end ColoVerif.C07
